@@ -29,3 +29,4 @@ package operation
 //@   loop 1
 //@     invariant 0 <= iter() && iter() <= len(ops)
 //@     invariant (opsErrs == nil) == forall(j, 0, iter(), Valid(ops[j]))
+//@     invariant opsErrs != nil ==> len(opsErrs.Errors) > 0
